@@ -190,7 +190,7 @@ def run_placed(vf, cases, make_placer, run_dir, per=60, variant="plain", name="p
     (those cases are accepted by the complete pipeline); every rejected case is then decided alone."""
     remaining = list(cases)
     rejected = []
-    for rnd in range(6):
+    for rnd in range(12):
         v = _run_round(vf, remaining, make_placer, run_dir, per, variant, "%s_r%d_" % (name, rnd))
         bad = [c for c in remaining if v[c["id"]]]
         if not bad:
